@@ -34,7 +34,8 @@ inductive SetArg
   | other
   deriving Repr
 
-/-- key grammar: `?`, `E`, `E+C`, `E-C` with `E ∈ ELEMENTS`, `C` matching `[1-9][0-9]*` -/
+/-- key grammar: `?`, `E`, `E+C`, `E-C` with `E ∈ ELEMENTS`, `C` matching `[1-9][0-9]*` and
+    convertible by `int()` (`_is_convertible`: at most `sys.get_int_max_str_digits()` digits) -/
 def validKey (key : Str) : Bool :=
   let fp := findChar '+' key
   let fm := findChar '-' key
@@ -50,7 +51,8 @@ def validKey (key : Str) : Bool :=
     | some j =>
       memStr (key.take j) Gen.elements &&
         (match key.drop (j + 1) with
-         | d :: ds => isDigit19 d && ds.all isAsciiDigit
+         | d :: ds => isDigit19 d && ds.all isAsciiDigit &&
+                      decide ((d :: ds).length ≤ Gen.intMaxStrDigits)
          | [] => false)
 
 def PyVal.validCapacity : PyVal → Bool
